@@ -159,6 +159,7 @@ class Stats:
 # profile interface
 # --------------------------------------------------------------------------------------
 class Profile:
+    deep = False
     prop = None
     name = None
     engine = None
@@ -167,6 +168,22 @@ class Profile:
     required_probes = ()
 
     def draw_config(self, rng):
+        """Swarm configuration of one run; the thorough tier deepens it."""
+        cfg = self._draw_config(rng)
+        if self.deep:
+            if "steps" in cfg:
+                cfg["steps"] = cfg["steps"] * 2 + rng.randint(0, 10)
+            if "pool" in cfg:
+                cfg["pool"] = cfg["pool"] + rng.randint(0, 4)
+            if "sweep" in cfg and not cfg["sweep"]:
+                cfg["sweep"] = rng.random() < 0.1
+            if "large" in cfg and not cfg["large"]:
+                cfg["large"] = rng.random() < 0.03
+            if "nfields" in cfg:
+                cfg["nfields"] = cfg["nfields"] + rng.randint(0, 2)
+        return cfg
+
+    def _draw_config(self, rng):
         raise NotImplementedError
 
     def new_state(self, config, stats):
@@ -195,6 +212,7 @@ class RunResult:
         "outcomes",
         "harness",
         "nsteps",
+        "shape",
     )
 
     def __init__(self):
@@ -207,6 +225,7 @@ class RunResult:
         self.outcomes = []
         self.harness = None
         self.nsteps = 0
+        self.shape = None
 
 
 def sig_of(prop, v, opkind):
@@ -250,6 +269,10 @@ def generate_run(profile, seed, i):
                 res.ops.append(op)
                 if not _apply(state, op, res, h):
                     break
+        try:
+            res.shape = state.shape()
+        except Exception:  # noqa: BLE001
+            res.shape = None
     finally:
         state.close()
     res.nsteps = len(res.outcomes)
@@ -373,6 +396,7 @@ def _do_chunk(seed, idxs, want_ops):
     viols = []
     samples = []
     harness = []
+    shapes = set()
     for i in idxs:
         try:
             r = generate_run(profile, seed, i)
@@ -391,6 +415,8 @@ def _do_chunk(seed, idxs, want_ops):
         ).hexdigest()[:16]
         shaf = sum(v for k, v in r.stats.c.items() if k.startswith("oracle/") and k != "oracle/value")
         hist[ah] = (r.nsteps >= 2 and shaf > 0)
+        if r.shape is not None:
+            shapes.add(r.shape)
         if want_ops and len(samples) < 1 and r.nsteps >= 3 and r.violation is None:
             samples.append({"run": i, "config": r.config, "ops": r.ops[:12], "outcomes": r.outcomes[:12]})
         if r.violation is not None:
@@ -403,6 +429,9 @@ def _do_chunk(seed, idxs, want_ops):
                 "config": r.config,
                 "step": r.step,
                 "nops": len(r.ops),
+                "ops_full": r.ops,
+                "step_full": r.step,
+                "message_full": r.violation.message[:2000],
             }
             if sum(1 for v in viols if v["sig"] == key and "ops" in v) < 1:
                 try:
@@ -426,6 +455,7 @@ def _do_chunk(seed, idxs, want_ops):
         "viols": viols,
         "samples": samples,
         "harness": harness,
+        "shapes": sorted(shapes),
     }
 
 
@@ -474,6 +504,84 @@ def replay_file(profile, path):
     return 2
 
 
+def _isolated_fails(profile, config, ops, key):
+    """Execute ops in a forked child of this (pristine) process; True if the violation
+    class `key` shows. The parent never executes library operations itself, so every
+    candidate starts from the library's import-time state."""
+    r, w = os.pipe()
+    pid = os.fork()
+    if pid == 0:
+        code = 1
+        try:
+            os.close(r)
+            res = execute_ops(profile, config, ops)
+            hit = _vkey(profile, res) == key
+            os.write(w, (json.dumps({"hit": hit, "step": res.step, "message": res.violation.message[:2000] if res.violation else None}) + "\n").encode())
+            code = 0
+        except BaseException:  # noqa: BLE001
+            pass
+        finally:
+            os._exit(code)
+    os.close(w)
+    data = b""
+    while True:
+        chunk = os.read(r, 65536)
+        if not chunk:
+            break
+        data += chunk
+    os.close(r)
+    os.waitpid(pid, 0)
+    try:
+        return json.loads(data.decode())
+    except Exception:  # noqa: BLE001
+        return {"hit": False}
+
+
+def minimise_isolated(profile, path, budget=150):
+    """ddmin over the steps of a replay file with every candidate run in a forked child of a
+    process that has only imported the library (for failures that depend on state the library
+    keeps between operations). Rewrites the file when a shorter history reproduces."""
+    doc = json.load(open(path))
+    key = doc["violation"]["signature"].split(" (NOT minimised")[0]
+    config, cur = doc["config"], list(doc["ops"])
+    tests = [0]
+
+    def fails(c):
+        if tests[0] >= budget:
+            return None
+        tests[0] += 1
+        out = _isolated_fails(profile, config, c, key)
+        return out if out.get("hit") else None
+
+    base = fails(cur)
+    if not base:
+        print("minimise: the complete history does not reproduce in an isolated child")
+        return 2
+    cur = cur[: base["step"] + 1]
+    last = base
+    n = 2
+    while len(cur) >= 2 and tests[0] < budget:
+        chunk = max(1, len(cur) // n)
+        reduced = False
+        for start in range(0, len(cur), chunk):
+            cand = cur[:start] + cur[start + chunk :]
+            out = fails(cand) if cand else None
+            if out:
+                cur, last, n, reduced = cand, out, max(n - 1, 2), True
+                break
+        if not reduced:
+            if chunk == 1:
+                break
+            n = min(len(cur), n * 2)
+    doc["ops"] = cur
+    doc["violation"].update(step=last["step"], message=last["message"], signature=key)
+    doc["minimised_in_isolated_children"] = True
+    with open(path, "w") as f:
+        json.dump(doc, f, indent=1, default=_default)
+    print(f"minimise: {len(cur)} ops after {tests[0]} isolated executions")
+    return 0
+
+
 def fresh_replay_ok(prop, path):
     """Replay in a fresh interpreter; must fail the same way (exit 1)."""
     env = dict(os.environ)
@@ -492,6 +600,7 @@ def run_check(profile, tier, seed, runs=None, workers=None, digests_only=False, 
     global _PROFILE
     t0 = time.time()
     _PROFILE = profile
+    profile.deep = tier == "thorough"  # thorough: longer histories, larger pools, more sweeps
     nruns = runs if runs is not None else profile.tier_runs(tier)
     workers = workers or int(os.environ.get("DSIM_WORKERS", "0")) or min(16, os.cpu_count() or 1)
     chunk = max(5, min(50, nruns // (workers * 8) or 5))
@@ -506,7 +615,7 @@ def run_check(profile, tier, seed, runs=None, workers=None, digests_only=False, 
         env["PYTHONHASHSEED"] = "12345"
         env["DSIM_NO_FRESH"] = "1"
         fresh = subprocess.Popen(
-            [os.path.join(VERIF, "check"), profile.prop, "--digests", str(min(24, ndet)), "--seed", str(seed)],
+            [os.path.join(VERIF, "check"), profile.prop, "--digests", str(min(24, ndet)), "--seed", str(seed), "--tier", tier],
             stdout=subprocess.PIPE,
             stderr=subprocess.DEVNULL,
             text=True,
@@ -606,7 +715,11 @@ def run_check(profile, tier, seed, runs=None, workers=None, digests_only=False, 
     return finish(profile, tier, seed, nruns, t0, agg, digests, hist, viols, samples, harness, det, det_mismatch, fresh_n, fresh_mismatch, truncated, workers)
 
 
+_SHAPES = set()
+
+
 def _merge(out, agg, digests, hist, viols, samples, harness):
+    _SHAPES.update(out.get("shapes", []))
     agg.update(out["agg"])
     digests.update(out["digests"])
     for k, v in out["hist"].items():
@@ -645,9 +758,29 @@ def finish(profile, tier, seed, nruns, t0, agg, digests, hist, viols, samples, h
     with concurrent.futures.ThreadPoolExecutor(max_workers=8) as tp:
         oks = list(tp.map(lambda c: fresh_replay_ok(prop, c[3]), cand))
     for (sig, vs, v, path), ok in zip(cand, oks):
+        note = ""
+        if not ok and v.get("ops_full") is not None:
+            # The minimised history fails only inside the worker that found it: the
+            # violation depends on process-global state of the library left behind by
+            # earlier steps (shrinking, done in that worker, dropped them). Fall back to
+            # the complete history of the run, replayed in a fresh interpreter.
+            v = dict(v, ops=v["ops_full"], step=v["step_full"], message=v["message_full"], digest=None)
+            path = write_replay(profile, seed, v)
+            ok = fresh_replay_ok(prop, path)
+            note = " (depends on state the library keeps between operations)"
+            if ok:
+                # minimise again, this time with every candidate in a pristine forked child
+                subprocess.run([os.path.join(VERIF, "check"), prop, "--minimise", path], capture_output=True, text=True, timeout=900, env=dict(os.environ, PYTHONHASHSEED="0"))
+                ok = fresh_replay_ok(prop, path)
+                try:
+                    doc = json.load(open(path))
+                    v = dict(v, ops=doc["ops"], step=doc["violation"]["step"], message=doc["violation"]["message"])
+                except Exception:  # noqa: BLE001
+                    pass
         if not ok:
             harness.append((v["run"], f"violation {sig} did not replay in a fresh interpreter: {path}"))
             continue
+        sig = sig + note
         lines.append(f"  signature: {sig}  (runs: {len(vs)}, minimised to {len(v['ops'])} ops, step {v['step']})")
         lines.append(f"  message: {v['message'][:600]}")
         lines.append(f"VIOLATION property={prop} replay={path}")
@@ -683,6 +816,8 @@ def finish(profile, tier, seed, nruns, t0, agg, digests, hist, viols, samples, h
             "rule": profile.rule,
             "samples": samples[:3] or [{"note": "no sample collected"}],
             "distinct_abstract_histories": len(hist),
+            "distinct_final_states": len(_SHAPES),
+            "final_state_measure": profile.state_measure,
             "simulated_steps": int(agg.get("steps", 0)),
             "simulated_time": "logical steps only: the system has no timers or clocks to advance (one HDF5 time stamp is shimmed to the step counter)",
             "runs_per_hour": int(runs_done / wall * 3600) if wall > 0 else 0,
